@@ -327,7 +327,8 @@ def judge_reload(col, case, kind, mem, inst, platform, update, pending, mode):
         import traceback
         col.outcome('FAIL:reload-raises')
         col.fail(c, 'loading the instance directory that the live experiment wrote raises %s: %s' % (type(e).__name__, str(e)[:600]),
-                 {'traceback': traceback.format_exc()[-1500:]}, sig='reload-raises:%s' % type(e).__name__)
+                 {'traceback': traceback.format_exc()[-1500:], 'message': ' '.join(str(e).split())[-400:]},
+                 sig='reload-raises:%s' % type(e).__name__)
         return None
     m = O.normalise(mem, mode) if mode != 'same' else mem
     diffs = O.diff_observations(m, robs)
@@ -356,7 +357,7 @@ def judge_reload(col, case, kind, mem, inst, platform, update, pending, mode):
     return rexp
 
 
-def judge_stored(col, case, kind, before, after, must_be_bytes):
+def judge_stored(col, case, kind, before, after, must_be_bytes, sig_suffix=''):
     c = dict(case, reload=kind, stored=True)
     col.evaluated()
     col.nontriv(c)
@@ -369,7 +370,7 @@ def judge_stored(col, case, kind, before, after, must_be_bytes):
         if must_be_bytes:
             sig, why = 'load-without-update-wrote-files', 'a load with updateInstanceConfiguration=False modified the stored description'
         else:
-            sig, why = 'fixed-point', 'loading and storing again changed the stored description'
+            sig, why = 'fixed-point' + sig_suffix, 'loading and storing again changed the stored description'
         col.outcome('FAIL:' + sig)
         col.fail(c, '%s (%s): %s' % (why, kind, canon(details)[:1200]), {'details': O.jclone(details)}, sig=sig)
 
@@ -433,6 +434,16 @@ def check_state(col, spec, prefix, exp, inst, pending, want_continuation, thorou
     if platform != 'default':
         judge_reload(col, case, 'load(platform=None)', mem, inst, None, False, pending, 'none')
         judge_stored(col, case, 'load(platform=None)', files, read_stored(inst), True)
+        if len(prefix) <= (2 if thorough else 1):
+            # the default call experimentFromInstance(dir) (platform=None, update=True; ewrap.py does exactly that):
+            # load + store without a platform argument, then the restart that elaunch does (platform of the instance)
+            judge_reload(col, case, 'load+store(platform=None)', mem, inst, None, True, pending, 'none')
+            judge_stored(col, case, 'load+store(platform=None)', files, read_stored(inst), False, ':platform=None')
+            judge_reload(col, case, 'load-after-store(platform=None)', mem, inst, platform, False, pending, 'same')
+            # put the description of the live experiment back (the harness, not the code under test, undoes the store)
+            for rel, data in files.items():
+                with open(os.path.join(inst, rel), 'wb') as f:
+                    f.write(data)
     return cont
 
 
@@ -547,7 +558,40 @@ def _sel_continuation_blueprint(f):
     return True
 
 
+def _sel_platform_forgotten(f):
+    """experimentFromInstance(dir) without a platform argument (update=True) on an instance created for platform P
+    stores `platforms: [default]` and drops the `override` sections of P; the next load with platform P is rejected
+    ("Unknown platform"). Only the two kinds of reload that follow a platform-less store, only instances created for P,
+    and only these two shapes: (a) the stored description differs ONLY in `platforms` (P removed) and in removed
+    component `override` sections of conf/flowir_instance.yaml; (b) the reload with P raises the unknown-platform error."""
+    case, obs = f['case'], f.get('observed') or {}
+    if case.get('pkg', {}).get('platform') == 'default':
+        return False
+    sig = str(f.get('sig', ''))
+    if case.get('reload') == 'load+store(platform=None)' and case.get('stored') and sig == 'fixed-point:platform=None':
+        details = obs.get('details') or []
+        changed = [d for d in details if 'diff' in d or d.get('what') != 'same document, different spelling/order']
+        if len(changed) != 1 or changed[0].get('file') != 'conf/flowir_instance.yaml' or not changed[0].get('diff') \
+                or changed[0].get('n_diff') != len(changed[0]['diff']):
+            return False
+        for d in changed[0]['diff']:
+            path = d.get('path', '')
+            if path == 'platforms':
+                if d.get('after') != ['default'] or case['pkg']['platform'] not in (d.get('before') or []):
+                    return False
+            elif path.startswith('components.') and path.endswith('.override'):
+                if d.get('after') != '<absent>':
+                    return False
+            else:
+                return False
+        return True
+    if case.get('reload') == 'load-after-store(platform=None)' and sig.startswith('reload-raises:'):
+        return 'Unknown platform "%s"' % case['pkg']['platform'] in str(obs.get('message', ''))
+    return False
+
+
 KNOWN_SELECTORS = {
+    'platform_forgotten_by_platformless_store': _sel_platform_forgotten,
     'patched_option_not_persisted': _sel_patch_lost,
     'continuation_blueprint_scope_order': _sel_continuation_blueprint,
 }
